@@ -2,7 +2,8 @@
 (***************************************************************************)
 (* ebu's in-process event bus: registry, publish/dispatch, once, async,    *)
 (* sequential, filters, context cancellation, publish hooks, panic         *)
-(* recovery, observability callbacks, Wait and Shutdown.                   *)
+(* recovery, observability callbacks, Wait and Shutdown, and - on a bus    *)
+(* with a store - the persistence step of every publish (persist.go).      *)
 (*                                                                         *)
 (* Shape: one action per critical section or user-code callback of         *)
 (* event_bus.go.  Goroutines (driver goroutines and the goroutines ebu     *)
@@ -24,7 +25,8 @@ CONSTANTS Types,     \* event type names
                      \* FALSE: any waiting invocation may take it (sync.Mutex, as ebu does today - defect D2)
 
 VARIABLES
-  cfg,        \* options the bus was created with: [obs, before, beforeCtx, after, afterCtx, panicH, closer : BOOLEAN]
+  cfg,        \* options the bus was created with: [obs, before, beforeCtx, after, afterCtx, panicH, closer : BOOLEAN],
+              \* optionally store, perrH (a store that records appends, a persistence error handler)
   reg,        \* [Types -> Seq(RegId)]    the registry, per type, in subscription order
   attr,       \* [RegId -> record]        immutable attributes of every registration ever made
   fired,      \* set of RegIds            once-claims taken (internalHandler.executed = 1)
@@ -64,6 +66,8 @@ BeforeHooks == (IF cfg.before THEN {"before"} ELSE {}) \cup (IF cfg.beforeCtx TH
 AfterHooks  == (IF cfg.after THEN {"after"} ELSE {}) \cup (IF cfg.afterCtx THEN {"afterCtx"} ELSE {})
 
 IsCancelled(c) == c \in cancelled
+HasStore == "store" \in DOMAIN cfg /\ cfg.store          \* WithStore: every publish is appended to the store first
+HasPErrH == "perrH" \in DOMAIN cfg /\ cfg.perrH          \* WithPersistenceErrorHandler
 
 \* ------------------------------------------------- frame normalisation
 \* A publish frame is [k |-> "pub", pub, t, val, ctx, n, pc, todo, snap, i, retire, claimed, pre].
@@ -77,7 +81,13 @@ LoopNorm(f) ==
        [f EXCEPT !.pc = IF a.filt THEN "filter" ELSE IF a.once THEN "claim" ELSE "dispatch"]
 AfterFilterPass(f) == [f EXCEPT !.pc = IF attr[f.snap[f.i]].once THEN "claim" ELSE "dispatch"]
 NextHandler(f) == LoopNorm([f EXCEPT !.i = @ + 1])
-AfterObs0(f) == IF BeforeHooks # {} THEN [f EXCEPT !.pc = "before", !.todo = BeforeHooks] ELSE [f EXCEPT !.pc = "snap"]
+\* persistence sits between the before hooks and the snapshot of the handler list (persistEvent):
+\*   OnPersistStart ("pers0", with observability) - Append under storeMu ("append") - OnPersistComplete ("pers1") -
+\*   persistence error handler ("perrh", after a failed append, if one is installed)
+AfterPersist(f) == IF ~f.pok /\ HasPErrH THEN [f EXCEPT !.pc = "perrh"] ELSE [f EXCEPT !.pc = "snap"]
+AfterAppend(f)  == IF cfg.obs THEN [f EXCEPT !.pc = "pers1"] ELSE AfterPersist(f)
+AfterBefore(f)  == IF HasStore THEN [f EXCEPT !.pc = IF cfg.obs THEN "pers0" ELSE "append"] ELSE [f EXCEPT !.pc = "snap"]
+AfterObs0(f) == IF BeforeHooks # {} THEN [f EXCEPT !.pc = "before", !.todo = BeforeHooks] ELSE AfterBefore(f)
 AfterStart(f) == IF cfg.obs THEN [f EXCEPT !.pc = "obs0"] ELSE AfterObs0(f)
 
 \* An invocation frame is [k |-> "inv", reg, pub, async, pc, panicked, pg, n, ctx]
@@ -146,11 +156,13 @@ WaitingTasks == {k \in Tasks : Top(k).pc \in {"tctx", "hstart", "enter"} /\ ~Ski
 (*   seqMax[<<r,g>>]: highest dispatch number of goroutine g for which the   *)
 (*                   Async+Sequential registration r has started running   *)
 (*   waitNeeds[g]  : async invocations a Wait/Shutdown by g must outlast   *)
+(*   log, appf     : the store: publishes appended, in append order, and   *)
+(*                   the publishes whose append failed                     *)
 (*   bad           : names of violated rules                               *)
 (***************************************************************************)
 GhostInit == [subDone |-> {}, remStarted |-> {}, remDone |-> {},
               must |-> <<>>, mustNot |-> <<>>, got |-> <<>>, rej |-> <<>>,
-              onceRan |-> {}, inside |-> {}, seqMax |-> <<>>, nspawn |-> 0, waitNeeds |-> <<>>, bad |-> {}]
+              onceRan |-> {}, inside |-> {}, seqMax |-> <<>>, nspawn |-> 0, waitNeeds |-> <<>>, log |-> <<>>, appf |-> {}, bad |-> {}]
 
 Flag(cond, name) == IF cond THEN {name} ELSE {}
 
@@ -287,7 +299,7 @@ PubCall(g, p, t, val, ctx) ==
   /\ t \in Types
   /\ Push(g, AfterStart([k |-> "pub", pub |-> p, t |-> t, val |-> val, ctx |-> ctx, n |-> npub + 1, pc |-> "start",
                          todo |-> {}, snap |-> <<>>, i |-> 1, retire |-> {}, claimed |-> {},
-                         pre |-> IsCancelled(ctx)]))
+                         pre |-> IsCancelled(ctx), pok |-> TRUE]))
   /\ pubs' = (p :> [g |-> g, t |-> t, val |-> val, ctx |-> ctx]) @@ pubs
   /\ npub' = npub + 1
   /\ gh' = [gh EXCEPT
@@ -309,7 +321,35 @@ ObsPubStart(g) ==
 HookBefore(g, h) ==
   /\ PubAt(g, "before") /\ h \in Top(g).todo
   /\ LET f == [Top(g) EXCEPT !.todo = @ \ {h}] IN
-       SetTop(g, IF f.todo = {} THEN [f EXCEPT !.pc = "snap"] ELSE f)
+       SetTop(g, IF f.todo = {} THEN AfterBefore(f) ELSE f)
+  /\ UNCHANGED <<cfg, reg, attr, fired, seqHolder, cancelled, closed, pubs, npub, gh>>
+
+\* (E) Observability.OnPersistStart
+ObsPersistStart(g) ==
+  /\ PubAt(g, "pers0")
+  /\ SetTop(g, [Top(g) EXCEPT !.pc = "append"])
+  /\ UNCHANGED <<cfg, reg, attr, fired, seqHolder, cancelled, closed, pubs, npub, gh>>
+
+\* (E) EventStore.Append, under storeMu: one record per publish, whether or not its context is cancelled;
+\*     ok = the store accepted it (a rejected append, or one cut off by the persistence timeout, writes nothing)
+StoreAppend(g, ok) ==
+  /\ PubAt(g, "append") /\ ok \in BOOLEAN
+  /\ SetTop(g, AfterAppend([Top(g) EXCEPT !.pok = ok]))
+  /\ gh' = [gh EXCEPT !.log = IF ok THEN Append(@, Top(g).pub) ELSE @,
+                       !.appf = IF ok THEN @ ELSE @ \cup {Top(g).pub},
+                       !.bad = @ \cup Flag(Top(g).pub \in Range(gh.log) \cup gh.appf, "appendTwice")]
+  /\ UNCHANGED <<cfg, reg, attr, fired, seqHolder, cancelled, closed, pubs, npub>>
+
+\* (E) Observability.OnPersistComplete (err = the append failed)
+ObsPersistDone(g, err) ==
+  /\ PubAt(g, "pers1") /\ err = ~Top(g).pok
+  /\ SetTop(g, AfterPersist(Top(g)))
+  /\ UNCHANGED <<cfg, reg, attr, fired, seqHolder, cancelled, closed, pubs, npub, gh>>
+
+\* (E) the persistence error handler is told about the failed append, once
+PersistErrH(g) ==
+  /\ PubAt(g, "perrh")
+  /\ SetTop(g, [Top(g) EXCEPT !.pc = "snap"])
   /\ UNCHANGED <<cfg, reg, attr, fired, seqHolder, cancelled, closed, pubs, npub, gh>>
 
 \* internal: snapshot of the type's handler list under the shard's read lock
@@ -417,7 +457,8 @@ EnterBody(g, r, p) ==
                   \cup Flag(~Top(g).async /\ r \in gh.mustNot[p], "mustNot")
                   \cup Flag(attr[r].once /\ r \in gh.onceRan, "onceTwice")
                   \cup Flag(attr[r].seq /\ r \in gh.inside, "overlap")
-                  \cup Flag(FifoInversion(g), "fifo")]
+                  \cup Flag(FifoInversion(g), "fifo")
+                  \cup Flag(HasStore /\ p \notin Range(gh.log) \cup gh.appf, "unrecorded")]
   /\ UNCHANGED <<cfg, reg, attr, fired, cancelled, closed, pubs, npub>>
 
 \* (E) the handler body of registration r starts running for publish p
@@ -489,7 +530,8 @@ PubRet(g) ==
           !.got = Restrict(@, DOMAIN @ \ {p}), !.rej = Restrict(@, DOMAIN @ \ {p}),
           !.bad = @ \cup Flag(\E r \in gh.must[p] : r \notin gh.got[p] /\ ~Excused(p, r), "mustMissed")
                     \cup Flag(OnceLeftBehind(g), "onceLeft")
-                    \cup Flag(OnceWasted(g), "onceWasted")]
+                    \cup Flag(OnceWasted(g), "onceWasted")
+                    \cup Flag(HasStore /\ p \notin Range(gh.log) \cup gh.appf, "unrecorded")]
   /\ UNCHANGED <<cfg, reg, attr, fired, seqHolder, cancelled, closed, npub>>
 
 \* all internal steps of goroutine g
@@ -524,6 +566,12 @@ CloseOnlyWhenDrained == "closedEarly" \notin gh.bad
 \* C07
 NoOverlap == "overlap" \notin gh.bad
 SeqFifo == "fifo" \notin gh.bad
+\* C09/C13: on a bus with a store every publish makes exactly one append attempt, before any of its handlers runs and
+\* before it returns; a failed attempt writes nothing and is not retried
+RecordedFirst == "unrecorded" \notin gh.bad
+AppendOnce == "appendTwice" \notin gh.bad
+LogSound == /\ \A i, j \in 1..Len(gh.log) : i # j => gh.log[i] # gh.log[j]
+            /\ Range(gh.log) \cap gh.appf = {}
 \* C01: the registry never holds a registration that a returned removal call took out
 RegistrySound == \A t \in Types : Range(reg[t]) \cap gh.remDone = {}
 =============================================================================
